@@ -174,6 +174,8 @@ class Parser:
 
     def pre_process_data(self, data):
         data = data.decode("utf-8")
+        # Windows line ends: the input is unicode-escaped, so CRLF is the four characters \r\n
+        data = data.replace("\\r\\n", "\\n")
         # todo: not sure how to workaround ',' normal way
         if '"input.regex"' in data:
             data = self.process_regex_input(data)
